@@ -132,6 +132,8 @@ class Method(Variable):  # i.e. TypeBound procedure
     def resolve_link(self, obj_tree):
         if self.link_name is None:
             return
+        # The procedure may have been renamed or removed since the last time
+        self.link_obj = None
         if self.parent is not None:
             if self.parent.get_type() == CLASS_TYPE_ID:
                 link_obj = find_in_scope(self.parent.parent, self.link_name, obj_tree)
